@@ -112,9 +112,93 @@ func scenario(procs, blocks, flags int, header bool, bound int) vexplore.Scenari
 		}}
 }
 
+// resumeScenario: stop after k objects, Close, reposition THE SAME reader at the
+// reported offset (what a caller does with f.Seek) and scan again with a new
+// scanner: exactly the objects from the first object of that block on, under
+// every schedule of both pipelines. A goroutine of the closed scanner that
+// still reads after Close returned would move the shared position.
+func resumeScenario(procs, blocks, flags int, header bool, k, bound int) vexplore.Scenario {
+	file := pbfscen.File(blocks, header)
+	enc := file.Encode()
+	var want []osm.Object
+	var blockOf []int
+	for bi := range file.Blocks {
+		for _, o := range file.Blocks[bi].Expected() {
+			if keep(o, flags) {
+				want = append(want, o)
+				blockOf = append(blockOf, bi)
+			}
+		}
+	}
+	if k > len(want) {
+		k = len(want)
+	}
+	name := fmt.Sprintf("resume-same-reader procs=%d blocks=%d skip=%03b header=%v k=%d", procs, blocks, flags, header, k)
+	return vexplore.Scenario{Name: name, Family: fmt.Sprintf("resume-same-reader procs=%d D=%d", procs, bound), Bound: bound, MaxSteps: 100000,
+		New: func() (func(), func(*vsched.Outcome) ([]vexplore.Finding, string, bool)) {
+			var problems []vexplore.Finding
+			var got []osm.Object
+			var first, resumed int
+			var off int64
+			var scanErr error
+			main := func() {
+				ctx, cancel := vsched.WithCancel(nil)
+				defer cancel()
+				rd := &pbfscen.Reader{Data: enc.Data, BlockOnly: true}
+				setup := func(s *osmpbf.Scanner) {
+					s.SkipNodes, s.SkipWays, s.SkipRelations = flags&1 != 0, flags&2 != 0, flags&4 != 0
+					s.FilterNode = func(*osm.Node) bool { vsched.Yield("filter"); return true }
+				}
+				s := osmpbf.New(ctx, rd, procs)
+				setup(s)
+				for first < k && s.Scan() {
+					first++
+				}
+				off = s.FullyScannedBytes()
+				s.Close()
+				rd.Pos = int(off) // Seek(off, io.SeekStart) on the shared reader
+				s2 := osmpbf.New(ctx, rd, procs)
+				setup(s2)
+				for s2.Scan() {
+					got = append(got, s2.Object())
+					resumed++
+				}
+				scanErr = s2.Err()
+				s2.Close()
+			}
+			check := func(o *vsched.Outcome) ([]vexplore.Finding, string, bool) {
+				fs := problems
+				if o.Kind != "ok" {
+					fs = append(fs, vexplore.Finding{Key: "schedule/" + o.Kind, Msg: o.Detail})
+					return fs, "", true
+				}
+				if first != k {
+					fs = append(fs, vexplore.Finding{Key: "schedule/sequence", Msg: fmt.Sprintf("first scan delivered %d objects, want %d", first, k)})
+					return fs, "", true
+				}
+				from := 0
+				if k > 0 {
+					b := blockOf[k-1]
+					for from = k - 1; from > 0 && blockOf[from-1] == b; from-- {
+					}
+					if off != enc.DataStarts[b] {
+						fs = append(fs, vexplore.Finding{Key: "schedule/fully-scanned-bytes", Msg: fmt.Sprintf("after %d objects FullyScannedBytes=%d want %d", k, off, enc.DataStarts[b])})
+					}
+				}
+				if scanErr != nil {
+					fs = append(fs, vexplore.Finding{Key: "schedule/resume-same-reader", Msg: "resumed scan failed: " + scanErr.Error()})
+				} else if d := pbfgen.DiffObjects(got, want[from:]); d != "" {
+					fs = append(fs, vexplore.Finding{Key: "schedule/resume-same-reader", Msg: fmt.Sprintf("resumed at %d after Close on the same reader: %s", off, d)})
+				}
+				return fs, fmt.Sprint(k, resumed), o.Threads > 5
+			}
+			return main, check
+		}}
+}
+
 func main() {
 	kit.Main("C09", "fault_enumeration", func(r *kit.Run) {
-		r.Rule("schedule part: files of 4-5 blocks (dense / ways / relations in rotation) x skip-flag sets that empty whole blocks x with and without header x procs x every schedule with <= D deviations of the instrumented pipeline; both offsets are checked after EVERY Scan; non-vacuous = several decoders and at least one block emptied")
+		r.Rule("schedule part: files of 4-5 blocks (dense / ways / relations in rotation) x skip-flag sets that empty whole blocks x with and without header x procs x every schedule with <= D deviations of the instrumented pipeline; both offsets are checked after EVERY Scan; non-vacuous = several decoders and at least one block emptied. Family resume-same-reader: stop after k objects (every k), Close, reposition the SAME reader at FullyScannedBytes, scan with a new scanner: exactly the remaining objects from the first object of that block")
 		r.Assume("vinst's rewrite preserves behaviour; sequentially consistent scheduler")
 		var scs []vexplore.Scenario
 		type pd struct{ p, d int }
@@ -129,6 +213,19 @@ func main() {
 				scs = append(scs, scenario(c.p, 5, flags, true, c.d))
 			}
 			scs = append(scs, scenario(c.p, 4, 1, false, c.d))
+		}
+		// resume on the same reader after Close, every stop position
+		rcfg := []pd{{1, 1}, {2, 1}}
+		if !r.Quick() {
+			rcfg = []pd{{1, 2}, {2, 2}, {3, 1}, {12, 1}}
+		}
+		for _, c := range rcfg {
+			for k := 0; k <= 8; k++ {
+				scs = append(scs, resumeScenario(c.p, 4, 0, true, k, c.d))
+			}
+			for k := 0; k <= 4; k++ {
+				scs = append(scs, resumeScenario(c.p, 4, 2, k%2 == 0, k, c.d))
+			}
 		}
 		e := &vexplore.Explorer{R: r, Scenarios: scs}
 		e.Run(budget)
